@@ -145,9 +145,9 @@ static const char* ell_class_name(int ellc) {
   return n[ellc];
 }
 
-enum { OF_ALLMAX = 0, OF_MAX_X_TOPBIT_Y, OF_ALTERNATING, OF_SINGLE, OF_TOPBIT, OF_NEARMAX_DISTINCT, OF_MAX_X_PROPER_C, OF_N };
+enum { OF_ALLMAX = 0, OF_MAX_X_TOPBIT_Y, OF_ALTERNATING, OF_SINGLE, OF_TOPBIT, OF_NEARMAX_DISTINCT, OF_MAX_X_PROPER_C, OF_LANE_MIX, OF_N };
 static const char* opfam_name(int f) {
-  static const char* n[] = {"all-maximal", "max-x-topbit-y", "max/min-alternating", "single-maximal", "topbit-random", "near-max-distinct", "max-x-proper-c"};
+  static const char* n[] = {"all-maximal", "max-x-topbit-y", "max/min-alternating", "single-maximal", "topbit-random", "near-max-distinct", "max-x-proper-c", "per-lane zero/maximal mix"};
   return n[f];
 }
 static uint64_t maxw(int kern) { return kern == K_BAA ? 0xFFFFFFFFull : UINT64_MAX; }
@@ -194,6 +194,25 @@ static void run_product(Ctx& c, int kern, int ellc, int opfam, uint64_t seed) {
         y32[i * sh.yw32 + 2 * w] = yl ? c0 : 0;
         y32[i * sh.yw32 + 2 * w + 1] = yl ? c1 : 0;
       }
+    }
+  }
+  if (opfam == OF_LANE_MIX) {
+    // the four lanes of a term are independent residues: zero some LANES of a term (never whole terms only) -- a fixed lane mask,
+    // a mask alternating from term to term, or a random mask per term; the surviving lanes stay maximal / top-bit random
+    const int mode = (int)r.below(4);
+    const unsigned fixed = 1 + (unsigned)r.below(14);
+    for (uint64_t i = 0; i < ell; ++i) {
+      unsigned mx = mode == 0 ? fixed : mode == 1 ? ((i & 1) ? 0xA : 0x5) : mode == 2 ? (unsigned)r.below(16) : (i == pos ? fixed : 0xF);
+      unsigned my = mode == 3 ? 0xF : (unsigned)r.below(3) == 0 ? (unsigned)r.below(16) : 0xF;
+      for (uint64_t w = 0; w < sh.xw; ++w) {
+        uint64_t v = (r.next() & 1) ? maxw(kern) : topw(kern, r);
+        x[i * sh.xw + w] = ((mx >> (w & 3)) & 1) ? v : 0;
+      }
+      if (!sh.ycl)
+        for (uint64_t w = 0; w < 4; ++w) y64[i * 4 + w] = ((my >> w) & 1) ? ((r.next() & 1) ? maxw(kern) : topw(kern, r)) : 0;
+      else
+        for (uint64_t w = 0; w < sh.yw32 / 2; ++w)
+          if (!((my >> (w & 3)) & 1)) y32[i * sh.yw32 + 2 * w] = y32[i * sh.yw32 + 2 * w + 1] = 0;
     }
   }
   const unsigned tp = topbit_percent(kern, ell, X, Y);
@@ -291,7 +310,7 @@ struct NttCtx {
 static NttCtx& ntt_ctx(uint64_t n) {
   static std::map<uint64_t, NttCtx> cache;
   auto it = cache.find(n);
-  if (it != cache.end()) return it->second;
+  if (it != cache.end()) { spq::maybe_bystander(); return it->second; }
   NttCtx& x = cache[n];
   x.f = q120_new_ntt_bb_precomp(n);
   x.b = q120_new_intt_bb_precomp(n);
@@ -302,6 +321,7 @@ static NttCtx& ntt_ctx(uint64_t n) {
   for (int k = 0; k < 4; ++k) d[(n >= 2 ? 4 : 0) + k] = 1;  // the polynomial X (n = 1: the constant 1, unused)
   q120_ntt_bb_avx2(x.f, (q120b*)d);
   x.roots.build(n, d);
+  spq::maybe_bystander();  // other tables / modules of other dimensions come and go while this one stays alive
   return x;
 }
 
